@@ -344,6 +344,9 @@ def ed_streams(ctx, scale=1):
             us += [rng.bits(300) % p for _ in range(20 * reps)]
             for u in us:
                 block.append("ed_ell2 %x" % (u + rng.choice([0, 0, p, 3 * p])))
+            # u = 0 is sent to (s, t) = (0, 0) when -J is a non-square: the exceptional point of the rational map; every representative
+            for k in (0, 1, 2, 5, 1 << 64):
+                block.append("ed_ell2 %x" % (k * p))
             rep = [rng.choice(block) for _ in range(4)]
             lines += ["ed_map_param %d" % cid] + block + rep
         res.append({"name": "ed-" + cfg, "cfg": cfg, "exe": exe, "lines": lines})
